@@ -168,7 +168,7 @@ deriving DecidableEq, Repr
 /-- SWITCH (the model follows the code). `false`: /repo as it is — `ParseBlockVersion` accepts version
 strings of any length. `true`: with `proposed-fixes/C02-long-protocol-version-wraps-mod-p.diff` strings
 longer than 31 bytes are a parse error. Tied by the `dispatch` / `bh` lines with 40-byte strings. -/
-def versionLengthLimited : Bool := true
+def versionLengthLimited : Bool := false
 
 /-- `ParseBlockVersion`: empty string is 0.0.0; only the first three dot-separated parts are parsed,
 anything after them is ignored; missing parts are 0. -/
